@@ -164,13 +164,14 @@ class GenResult:
     trusted_scan: list     # occurrences of external_body / assume_specification / admit / assume
 
 class Extractor:
-    def __init__(self, repo, spec_dir, unit, usize_bytes=8, canary=False, only_props=None, force_external=None):
+    def __init__(self, repo, spec_dir, unit, usize_bytes=8, canary=False, only_props=None, force_external=None, target_endian='little'):
         self.repo = repo
         self.spec = Spec(spec_dir)
         self.unit_name = unit
         self.unit = self.spec.units['unit'][unit]
         self.features = set(self.unit.get('features', []))
         self.usize_bytes = usize_bytes
+        self.target_endian = target_endian   # cfg(target_endian) is evaluated for this value (the host is little-endian)
         self.canary = canary
         self.fns = []
         self.clauses = {}
@@ -189,7 +190,7 @@ class Extractor:
         for a in item.attrs:
             c = attr_cfg(a)
             if c is not None:
-                if not eval_cfg(c, self.features):
+                if not eval_cfg(c, self.features, target_endian=self.target_endian):
                     return False
         return True
 
@@ -212,7 +213,7 @@ class Extractor:
                     e = match_close(toks, j)
                     c = attr_cfg(rsx.text_of(toks, k, e + 1))
                     if c is not None:
-                        if eval_cfg(c, self.features):
+                        if eval_cfg(c, self.features, target_endian=self.target_endian):
                             k = e + 1; continue
                         # skip to the ',' that ends the element
                         depth = 0
@@ -1071,6 +1072,8 @@ class Extractor:
             body, mspec = self.process_module(m)
             bu = ['crate::vp::ax::axiom_slice_len_bound'] + list(mspec.get('broadcast', []))
             chunks.append(('raw', None, 'pub mod %s {\nuse vstd::prelude::*;\nuse vstd::std_specs::iter::IteratorSpec;\nuse crate::vp::*;\nbroadcast use {%s};\n' % (m, ', '.join(bu))))
+            for k_ in ('top', 'bottom'):
+                if mspec.get(k_): mspec[k_] = mspec[k_].replace('${TARGET_IS_LITTLE}', 'true' if self.target_endian == 'little' else 'false')
             if mspec.get('top'):
                 chunks.append(('raw', None, g(mspec['top']) + '\n'))
             chunks.extend(body)
